@@ -250,6 +250,29 @@ def make_pool(rng):
         if c is None:
             continue
         pool.append({'kind': 'circ', 'circuit': c['circuit'], 'w': 100.0, 'dynamic': True, 'n': 40, 'h': 1e-4, 'inputs': c['inputs']})
+    # the same descriptions again with other values (same ids, same topology): what a parameter sweep or a second project in the
+    # same process looks like - anything cached by name or by topology shows up here
+    import copy as _copy
+    from .C10 import swept
+    for item in list(pool):
+        if item['kind'] == 'circ' and rng.random() < 0.8:
+            twin = _copy.deepcopy(item)
+            twin['circuit'] = swept(rng, twin['circuit'])
+            for c in twin['circuit']['components']:
+                a = c['args']
+                if c['ctor'].startswith('periodic'):
+                    a['wavetype'] = rng.choice([w for w in ['rect', 'tri', 'saw'] if w != a['wavetype']])
+                for k in ('V', 'I'):
+                    if k in a and not isinstance(a[k], list):
+                        a[k] = a[k] * rng.choice([-2.0, 0.5, 3.0])
+            pool.append(twin)
+        elif item['kind'] == 'net' and rng.random() < 0.5:
+            twin = _copy.deepcopy(item)
+            for b in twin['net']['branches']:
+                for k in ('R', 'G', 'V', 'I'):
+                    if k in b and not isinstance(b[k], list):
+                        b[k] = b[k] * rng.choice([0.5, 2.0, 5.0])
+            pool.append(twin)
     for _ in range(3):
         ents, _refs = [], []
         for j in range(rng.randint(1, 5)):
